@@ -194,8 +194,12 @@ def main():
         if key not in balancers:
             balancers[key] = Balancer(reaction_col=col, n_jobs=run.get("n_jobs", 1))
         b = balancers[key]
+        if run.get("ctor"):
+            # the threshold (and batch size) given to the constructor of a new object instead of being assigned
+            b = Balancer(reaction_col=col, n_jobs=run.get("n_jobs", 1), confidence_threshold=run.get("threshold", 0))
+        else:
+            b.confidence_threshold = run.get("threshold", 0)
         b.n_jobs = run.get("n_jobs", 1)
-        b.confidence_threshold = run.get("threshold", 0)
         b.cache = bool(run.get("cache_dir"))
         b.cache_dir = run.get("cache_dir")
         inputs = run["inputs"]
